@@ -19,6 +19,7 @@ import hashlib
 import itertools
 import struct
 
+import gen_c16
 from vlib import Ctx
 
 PROPERTY = "C16"
@@ -46,7 +47,23 @@ ASSUMPTIONS = [
     "unserialize_public raising struct.error on a trailing partial chunk is mirrored, not judged",
 ]
 
-GEN_LEN = 32
+SPEC_CAP = 100          # the waiting area the property speaks of; a tree is left on its constructor default for it
+SPEC_DEPTH = 1000       # default maxdepth; calls with it use the default argument
+
+
+def generate(ctx: Ctx):
+    src, consts = gen_c16.translate()
+    ctx.extra["generated_constants"] = consts
+    return [("Ipv8/C16/GenConst.lean", src)]
+
+
+def capw(cap: int) -> str:
+    return "default" if cap == SPEC_CAP else str(cap)
+
+
+def depthw(d: int) -> str:
+    return "default" if d == SPEC_DEPTH else str(d)
+
 VERY_LOW_KEYS = [
     "30530201010415008cd5cdc373e12a40ea8e23524b2ec0edd6d839fca00706052b81040001a12e032c00040486ae45159f2405326712493c50acd55bba13093b0520d764ed2ef1cab57a5bfc2ebe0e6d21ef13a8f3",
     "305302010104150089a2e278a0d4403693ee9b3aeb16fab679e32d1ea00706052b81040001a12e032c0004013b1ba8846fbe622fbf784f1a9f8d2c11eb1f085203711e7c26132b7c6092f53ac68c9facf2893932f2",
@@ -377,7 +394,8 @@ class Run:
 
     def new_tree(self, own: bool = False):
         tree = self.TokenTree(private_key=self.sk) if own else self.TokenTree(public_key=self.pub)
-        tree.unchained_max_size = self.sc["cap"]
+        if self.sc["cap"] != SPEC_CAP:
+            tree.unchained_max_size = self.sc["cap"]
         return tree
 
     # -- oracle ------------------------------------------------------------------------------------------
@@ -499,193 +517,204 @@ class Run:
         if self.with_lines:
             if self.share is None:
                 self.line(f"key {hx(self.genesis)} {self.siglen}", "ok")
-            self.line(f"new {sc['cap']}", "ok")
+            self.line(f"new {capw(sc['cap'])}", "ok")
         ops = sc["ops"] if ops is None else ops
         rng_local = None
-        for n, op in enumerate(ops):
-            kind = op[0]
-            self.ctx.count(f"op:{kind}")
-            if kind == "gather":
-                _, i, form = op
-                tok = self.obj(i, form)
-                nm = self.name(i, form)
-                self.offered.append(self.toks[i])
-                res = tree.gather_token(tok)
-                k = "none" if res is None else ("added" if res is tok else "shadow")
-                self.ctx.count(f"gather:{k}")
-                self.ctx.count(f"offered:{self.toks[i]['label']}")
-                self.line(f"gather {nm}", f"{k} {self.state(tree)}")
-                self.check_invariants(tree, f"after op {n} gather({i},{form})")
-                if res is not None and not self.toks[i]["good"]:
-                    self.fail("TokenTree.gather_token:bad-token-accepted",
-                              f"gather_token returned a token for a {self.toks[i]['label']} token")
-            elif kind == "add":
-                _, parent, chex, by_hash = op
-                c = bytes.fromhex(chex)
-                after = self.own_objs[parent] if parent >= 0 else None
-                tok = tree.add_by_hash(sha3(c), after) if by_hash else tree.add(c, after)
-                d = {"prev": tok.previous_token_hash.hex(), "chash": tok.content_hash.hex(), "sig": tok.signature.hex(),
-                     "content": None if by_hash else chex, "good": True, "label": "own"}
-                i = len(self.toks)
-                self.toks.append(d)
-                self.hid.append(tk_hid(d))
-                self.own_objs.append(tok)
-                self.offered.append(d)
-                exp_prev = self.genesis if parent < 0 else self.hid[parent]
-                try:
-                    sig_ok = self.crypto.is_valid_signature(self.pub, exp_prev + sha3(c), tok.signature)
-                except Exception:
-                    sig_ok = False
-                if (tok.previous_token_hash != exp_prev or tok.content_hash != sha3(c) or not sig_ok
-                        or tok.content != (None if by_hash else c) or tree.elements.get(self.hid[i]) is not tok):
-                    self.fail("TokenTree.add:bad-token",
-                              f"add{'_by_hash' if by_hash else ''}(after={parent}) produced prev={id8(tok.previous_token_hash)} "
-                              f"(expected {id8(exp_prev)}), pointer ok={tok.content_hash == sha3(c)}, signature ok={sig_ok}, "
-                              f"stored under its hash={tree.elements.get(self.hid[i]) is tok}")
-                form = "hash" if by_hash else "full"
-                nm = self.name(i, form)
-                self.line(f"append {nm}", self.state(tree))
-                self.check_invariants(tree, f"after op {n} add(after={parent})")
-            elif kind in ("verify", "path"):
-                _, i, depth = op
-                form = "hash"
-                tok = self.obj(i, form)
-                nm = self.name(i, form)
-                exp = self.expected_path(tree, i, depth)
-                if kind == "verify":
-                    r = tree.verify(tok, depth)
-                    self.line(f"verify {nm} {depth}", "true" if r else "false")
-                    self.ctx.count(f"verify:{r}:{'good' if self.toks[i]['good'] else 'bad'}")
-                    if r and exp is None:
-                        self.fail("TokenTree.verify:false-positive",
-                                  f"verify({self.toks[i]['label']} token {id8(self.hid[i])}, {depth}) is True but it has "
-                                  f"no root path of valid contained tokens within {depth}")
-                    if not r and exp is not None and depth > 0:
-                        self.fail("TokenTree.verify:false-negative",
-                                  f"verify(token {id8(self.hid[i])}, {depth}) is False but its root path has "
-                                  f"{len(exp)} tokens")
-                else:
-                    r = tree.get_root_path(tok, depth)
-                    got = [sha3(x.previous_token_hash + x.content_hash + x.signature) for x in r]
-                    self.line(f"path {nm} {depth}", ",".join(id8(h) for h in got))
-                    self.ctx.count(f"path:{'empty' if not got else 'len%d' % min(len(got), 5)}")
-                    if got != (exp or []) and not (depth <= 0 and not got):
-                        self.fail("TokenTree.get_root_path:wrong-path",
-                                  f"get_root_path({self.toks[i]['label']} token {id8(self.hid[i])}, {depth}) = "
-                                  f"{[id8(h) for h in got]}, expected {[id8(h) for h in (exp or [])]}")
-            elif kind == "missing":
-                r = sorted(hx(h) for h in tree.get_missing())
-                self.line("missing", ",".join(r))
-                exp = sorted({hx(u.previous_token_hash) for u in tree.unchained})
-                if r != exp:
-                    self.fail("TokenTree.get_missing:wrong", f"get_missing={r} waiting parents={exp}")
-            elif kind == "recv":
-                _, i, form, chex = op
-                tok = self.obj(i, form)
-                nm = self.name(i, form)
-                c = bytes.fromhex(chex)
-                self.reg_h(c)
-                r = tok.receive_content(c)
-                self.line(f"recv {nm} {hx(c)}", f"{'true' if r else 'false'} "
-                                                f"{'none' if tok.content is None else hx(tok.content)}")
-                self.named.discard(nm)   # the driver's registry token changed; re-register on next use
-                binds = sha3(c) == bytes.fromhex(self.toks[i]["chash"])
-                self.ctx.count(f"recv:{'bound' if binds else 'unbound'}")
-                if r != binds or (tok.content is not None) != binds or (binds and tok.content != c):
-                    self.fail("Token.receive_content:unbound-content",
-                              f"receive_content({c!r}) returned {r} / content={tok.content!r}; content hashes to the "
-                              f"pointer: {binds}")
-            elif kind == "ser":
-                s = tree.serialize_public()
-                self.line("ser", self.canon_ser(hx(s)))
-                exp = sorted(v.previous_token_hash + v.content_hash + v.signature for v in tree.elements.values())
-                if sorted(s[j:j + self.chunk] for j in range(0, len(s), self.chunk)) != exp:
-                    self.fail("TokenTree.serialize_public:wrong-dump", "full dump is not the concatenation of the elements")
-            elif kind == "serupto":
-                _, i = op
-                tok = self.obj(i, "hash")
-                nm = self.name(i, "hash")
-                s = tree.serialize_public(tok)
-                self.line(f"serupto {nm}", hx(s))
-            elif kind in ("reload", "reload_upto"):
-                if kind == "reload":
-                    s = tree.serialize_public()
-                    expect_keys = set(tree.elements.keys())
-                    expect_flag = True
-                    overflow_possible = False
-                else:
-                    i = op[1]
-                    if self.hid[i] not in tree.elements:
-                        self.ctx.count("reload_upto:skipped(not-an-element)")
-                        continue
-                    tok = self.obj(i, "hash")
-                    s = tree.serialize_public(tok)
-                    p = self.expected_path(tree, i, 10 ** 9)
-                    expect_keys = set(p or [])
-                    expect_flag = len(expect_keys) <= 1      # every non-root chunk arrives before its parent
-                    overflow_possible = len(expect_keys) - 1 > sc["cap"]
-                tree2 = self.new_tree()
-                for j in range(0, len(s) - self.chunk + 1, self.chunk):
-                    self.reg_fields(s[j:j + 32], s[j + 32:j + 64], s[j + 64:j + self.chunk])
-                ok = tree2.unserialize_public(s)
-                self.line(f"new {sc['cap']}", "ok")
-                self.line(f"unser {hx(s)}", f"{'true' if ok else 'false'} {self.state(tree2)}")
-                self.ctx.count(f"{kind}:{ok}")
-                if not overflow_possible:
-                    if set(tree2.elements.keys()) != expect_keys:
-                        self.fail("TokenTree.unserialize_public:roundtrip",
-                                  f"{kind}: reloading the public serialisation gives {len(tree2.elements)} elements, "
-                                  f"the serialised tree/path has {len(expect_keys)}")
-                    elif kind == "reload" and (not ok or len(tree2.unchained)):
-                        self.fail("TokenTree.unserialize_public:roundtrip",
-                                  f"reload of a full dump returned {ok} with {len(tree2.unchained)} waiting tokens")
-                    elif kind == "reload_upto" and ok != expect_flag:
-                        self.ctx.count("reload_upto:flag-differs")
-                # the reloaded tree replaces the current one (the driver holds a single tree)
-                self.offered = [t for t in self.offered if tk_hid(t) in expect_keys] if not overflow_possible else self.offered
-                tree = tree2
-                self.check_invariants(tree, f"after {kind}")
-            elif kind == "unser_mut":
-                _, how, mseed, fresh = op
-                import random as _r
-                rng_local = _r.Random(mseed)
-                s = tree.serialize_public()
-                s = self.mutate(s, how, rng_local)
-                target = self.new_tree() if fresh else tree
-                if fresh:
-                    self.line(f"new {sc['cap']}", "ok")
-                    self.offered = []
-                # ground truth for the chunks: a chunk is good iff it is byte-identical to a good offered token
-                good_signed = {bytes.fromhex(t["prev"]) + bytes.fromhex(t["chash"]) + bytes.fromhex(t["sig"]): t
-                               for t in self.toks if t["good"]}
-                for j in range(0, len(s) - self.chunk + 1, self.chunk):
-                    ch = s[j:j + self.chunk]
-                    self.reg_fields(ch[:32], ch[32:64], ch[64:])
-                    if ch in good_signed:
-                        self.offered.append(good_signed[ch])
+        self.tree = tree
+        try:
+            for n, op in enumerate(ops):
+                self.cur = (n, op)
+                kind = op[0]
+                self.ctx.count(f"op:{kind}")
+                if kind == "gather":
+                    _, i, form = op
+                    tok = self.obj(i, form)
+                    nm = self.name(i, form)
+                    self.offered.append(self.toks[i])
+                    res = tree.gather_token(tok)
+                    k = "none" if res is None else ("added" if res is tok else "shadow")
+                    self.ctx.count(f"gather:{k}")
+                    self.ctx.count(f"offered:{self.toks[i]['label']}")
+                    self.line(f"gather {nm}", f"{k} {self.state(tree)}")
+                    self.check_invariants(tree, f"after op {n} gather({i},{form})")
+                    if res is not None and not self.toks[i]["good"]:
+                        self.fail("TokenTree.gather_token:bad-token-accepted",
+                                  f"gather_token returned a token for a {self.toks[i]['label']} token")
+                elif kind == "add":
+                    _, parent, chex, by_hash = op
+                    c = bytes.fromhex(chex)
+                    after = self.own_objs[parent] if parent >= 0 else None
+                    tok = tree.add_by_hash(sha3(c), after) if by_hash else tree.add(c, after)
+                    d = {"prev": tok.previous_token_hash.hex(), "chash": tok.content_hash.hex(), "sig": tok.signature.hex(),
+                         "content": None if by_hash else chex, "good": True, "label": "own"}
+                    i = len(self.toks)
+                    self.toks.append(d)
+                    self.hid.append(tk_hid(d))
+                    self.own_objs.append(tok)
+                    self.offered.append(d)
+                    exp_prev = self.genesis if parent < 0 else self.hid[parent]
+                    try:
+                        sig_ok = self.crypto.is_valid_signature(self.pub, exp_prev + sha3(c), tok.signature)
+                    except Exception:
+                        sig_ok = False
+                    if (tok.previous_token_hash != exp_prev or tok.content_hash != sha3(c) or not sig_ok
+                            or tok.content != (None if by_hash else c) or tree.elements.get(self.hid[i]) is not tok):
+                        self.fail("TokenTree.add:bad-token",
+                                  f"add{'_by_hash' if by_hash else ''}(after={parent}) produced prev={id8(tok.previous_token_hash)} "
+                                  f"(expected {id8(exp_prev)}), pointer ok={tok.content_hash == sha3(c)}, signature ok={sig_ok}, "
+                                  f"stored under its hash={tree.elements.get(self.hid[i]) is tok}")
+                    form = "hash" if by_hash else "full"
+                    nm = self.name(i, form)
+                    self.line(f"append {nm}", self.state(tree))
+                    self.check_invariants(tree, f"after op {n} add(after={parent})")
+                elif kind in ("verify", "path"):
+                    _, i, depth = op
+                    form = "hash"
+                    tok = self.obj(i, form)
+                    nm = self.name(i, form)
+                    exp = self.expected_path(tree, i, depth)
+                    if kind == "verify":
+                        r = tree.verify(tok) if depth == SPEC_DEPTH else tree.verify(tok, depth)
+                        self.line(f"verify {nm} {depthw(depth)}", "true" if r else "false")
+                        self.ctx.count(f"verify:{r}:{'good' if self.toks[i]['good'] else 'bad'}")
+                        if r and exp is None:
+                            self.fail("TokenTree.verify:false-positive",
+                                      f"verify({self.toks[i]['label']} token {id8(self.hid[i])}, {depth}) is True but it has "
+                                      f"no root path of valid contained tokens within {depth}")
+                        if not r and exp is not None and depth > 0:
+                            self.fail("TokenTree.verify:false-negative",
+                                      f"verify(token {id8(self.hid[i])}, {depth}) is False but its root path has "
+                                      f"{len(exp)} tokens")
                     else:
-                        self.offered.append({"prev": ch[:32].hex(), "chash": ch[32:64].hex(), "sig": ch[64:].hex(),
-                                             "content": None, "good": False, "label": "bytes"})
-                try:
-                    ok = target.unserialize_public(s)
-                    flag = "true" if ok else "false"
-                except struct.error:
-                    flag = "error"
-                self.ctx.count(f"unser_mut:{how}:{flag}")
-                self.line(f"unser {hx(s)}", f"{flag} {self.state(target)}")
-                if flag == "true":
-                    lost = [id8(sha3(s[j:j + self.chunk])) for j in range(0, len(s), self.chunk)
-                            if sha3(s[j:j + self.chunk]) not in target.elements]
-                    if lost:
-                        self.fail("TokenTree.unserialize_public:true-with-rejected-chunk",
-                                  f"unserialize_public returned True although chunks {lost} did not become elements "
-                                  f"({how} bytes)")
-                tree = target
-                self.check_invariants(tree, f"after unserialize_public of {how} bytes")
-                if flag == "error" and len(s) % self.chunk == 0:
-                    self.fail("TokenTree.unserialize_public:raises", "struct.error on a whole number of chunks")
-            else:
-                raise ValueError(kind)
+                        r = tree.get_root_path(tok) if depth == SPEC_DEPTH else tree.get_root_path(tok, depth)
+                        got = [sha3(x.previous_token_hash + x.content_hash + x.signature) for x in r]
+                        self.line(f"path {nm} {depthw(depth)}", ",".join(id8(h) for h in got))
+                        self.ctx.count(f"path:{'empty' if not got else 'len%d' % min(len(got), 5)}")
+                        if got != (exp or []) and not (depth <= 0 and not got):
+                            self.fail("TokenTree.get_root_path:wrong-path",
+                                      f"get_root_path({self.toks[i]['label']} token {id8(self.hid[i])}, {depth}) = "
+                                      f"{[id8(h) for h in got]}, expected {[id8(h) for h in (exp or [])]}")
+                elif kind == "missing":
+                    r = sorted(hx(h) for h in tree.get_missing())
+                    self.line("missing", ",".join(r))
+                    exp = sorted({hx(u.previous_token_hash) for u in tree.unchained})
+                    if r != exp:
+                        self.fail("TokenTree.get_missing:wrong", f"get_missing={r} waiting parents={exp}")
+                elif kind == "recv":
+                    _, i, form, chex = op
+                    tok = self.obj(i, form)
+                    nm = self.name(i, form)
+                    c = bytes.fromhex(chex)
+                    self.reg_h(c)
+                    r = tok.receive_content(c)
+                    self.line(f"recv {nm} {hx(c)}", f"{'true' if r else 'false'} "
+                                                    f"{'none' if tok.content is None else hx(tok.content)}")
+                    self.named.discard(nm)   # the driver's registry token changed; re-register on next use
+                    binds = sha3(c) == bytes.fromhex(self.toks[i]["chash"])
+                    self.ctx.count(f"recv:{'bound' if binds else 'unbound'}")
+                    if r != binds or (tok.content is not None) != binds or (binds and tok.content != c):
+                        self.fail("Token.receive_content:unbound-content",
+                                  f"receive_content({c!r}) returned {r} / content={tok.content!r}; content hashes to the "
+                                  f"pointer: {binds}")
+                elif kind == "ser":
+                    s = tree.serialize_public()
+                    self.line("ser", self.canon_ser(hx(s)))
+                    exp = sorted(v.previous_token_hash + v.content_hash + v.signature for v in tree.elements.values())
+                    if sorted(s[j:j + self.chunk] for j in range(0, len(s), self.chunk)) != exp:
+                        self.fail("TokenTree.serialize_public:wrong-dump", "full dump is not the concatenation of the elements")
+                elif kind == "serupto":
+                    _, i = op
+                    tok = self.obj(i, "hash")
+                    nm = self.name(i, "hash")
+                    s = tree.serialize_public(tok)
+                    self.line(f"serupto {nm}", hx(s))
+                elif kind in ("reload", "reload_upto"):
+                    if kind == "reload":
+                        s = tree.serialize_public()
+                        expect_keys = set(tree.elements.keys())
+                        expect_flag = True
+                        overflow_possible = False
+                    else:
+                        i = op[1]
+                        if self.hid[i] not in tree.elements:
+                            self.ctx.count("reload_upto:skipped(not-an-element)")
+                            continue
+                        tok = self.obj(i, "hash")
+                        s = tree.serialize_public(tok)
+                        p = self.expected_path(tree, i, 10 ** 9)
+                        expect_keys = set(p or [])
+                        expect_flag = len(expect_keys) <= 1      # every non-root chunk arrives before its parent
+                        overflow_possible = len(expect_keys) - 1 > sc["cap"]
+                    tree2 = self.new_tree()
+                    for j in range(0, len(s) - self.chunk + 1, self.chunk):
+                        self.reg_fields(s[j:j + 32], s[j + 32:j + 64], s[j + 64:j + self.chunk])
+                    ok = tree2.unserialize_public(s)
+                    self.line(f"new {capw(sc['cap'])}", "ok")
+                    self.line(f"unser {hx(s)}", f"{'true' if ok else 'false'} {self.state(tree2)}")
+                    self.ctx.count(f"{kind}:{ok}")
+                    if not overflow_possible:
+                        if set(tree2.elements.keys()) != expect_keys:
+                            self.fail("TokenTree.unserialize_public:roundtrip",
+                                      f"{kind}: reloading the public serialisation gives {len(tree2.elements)} elements, "
+                                      f"the serialised tree/path has {len(expect_keys)}")
+                        elif kind == "reload" and (not ok or len(tree2.unchained)):
+                            self.fail("TokenTree.unserialize_public:roundtrip",
+                                      f"reload of a full dump returned {ok} with {len(tree2.unchained)} waiting tokens")
+                        elif kind == "reload_upto" and ok != expect_flag:
+                            self.ctx.count("reload_upto:flag-differs")
+                    # the reloaded tree replaces the current one (the driver holds a single tree)
+                    self.offered = [t for t in self.offered if tk_hid(t) in expect_keys] if not overflow_possible else self.offered
+                    tree = tree2
+                    self.check_invariants(tree, f"after {kind}")
+                elif kind == "unser_mut":
+                    _, how, mseed, fresh = op
+                    import random as _r
+                    rng_local = _r.Random(mseed)
+                    s = tree.serialize_public()
+                    s = self.mutate(s, how, rng_local)
+                    target = self.new_tree() if fresh else tree
+                    if fresh:
+                        self.line(f"new {capw(sc['cap'])}", "ok")
+                        self.offered = []
+                    # ground truth for the chunks: a chunk is good iff it is byte-identical to a good offered token
+                    good_signed = {bytes.fromhex(t["prev"]) + bytes.fromhex(t["chash"]) + bytes.fromhex(t["sig"]): t
+                                   for t in self.toks if t["good"]}
+                    for j in range(0, len(s) - self.chunk + 1, self.chunk):
+                        ch = s[j:j + self.chunk]
+                        self.reg_fields(ch[:32], ch[32:64], ch[64:])
+                        if ch in good_signed:
+                            self.offered.append(good_signed[ch])
+                        else:
+                            self.offered.append({"prev": ch[:32].hex(), "chash": ch[32:64].hex(), "sig": ch[64:].hex(),
+                                                 "content": None, "good": False, "label": "bytes"})
+                    try:
+                        ok = target.unserialize_public(s)
+                        flag = "true" if ok else "false"
+                    except struct.error:
+                        flag = "error"
+                    self.ctx.count(f"unser_mut:{how}:{flag}")
+                    self.line(f"unser {hx(s)}", f"{flag} {self.state(target)}")
+                    if flag == "true":
+                        lost = [id8(sha3(s[j:j + self.chunk])) for j in range(0, len(s), self.chunk)
+                                if sha3(s[j:j + self.chunk]) not in target.elements]
+                        if lost:
+                            self.fail("TokenTree.unserialize_public:true-with-rejected-chunk",
+                                      f"unserialize_public returned True although chunks {lost} did not become elements "
+                                      f"({how} bytes)")
+                    tree = target
+                    self.check_invariants(tree, f"after unserialize_public of {how} bytes")
+                    if flag == "error" and len(s) % self.chunk == 0:
+                        self.fail("TokenTree.unserialize_public:raises", "struct.error on a whole number of chunks")
+                else:
+                    raise ValueError(kind)
+                self.tree = tree
+        except Exception as e:      # the real code raised where the API promises a value
+            n, op = self.cur
+            self.fail(f"TokenTree.{op[0]}:raises",
+                      f"op {n} {op[:3]} raised {type(e).__name__}: {str(e)[:200]}")
+            if self.with_lines:      # keep request / reply lists aligned; the scenario ends here
+                self.lines, self.impl = self.lines[:len(self.impl)], self.impl[:len(self.lines)]
+            return
         self.tree = tree
 
     def canon_ser(self, h: str) -> str:
@@ -948,7 +977,8 @@ def run_special(ctx: Ctx, use_model: bool):
         scen([-1] + [0] * 101, list(range(101, -1, -1))),
         scen([-1, 0, 1, 2], [3, 2, 1, 0], cap=3), scen([-1, 0, 1, 2], [3, 2, 1, 0], cap=2),
         scen([-1, 0, 1, 2], [3, 2, 1, 0], cap=0),
-        scen(list(range(-1, 119)), list(range(120)), extra_ops=[("reload_upto", 119), ("reload",)]),
+        scen(list(range(-1, 119)), list(range(120)), extra_ops=[("verify", 119, 1000), ("path", 119, 1000),
+                                                                ("verify", 119, 119), ("reload_upto", 119), ("reload",)]),
     ]
     for sc in cases:
         r = Run(ctx, sc, use_model)
